@@ -144,6 +144,28 @@ PROPS['C17'].update({
     'assumptions': ['table has at least one slot (size >= 32 bytes; smaller sizes shift by a negative amount in NewTranspositionTable and are outside the domain)'],
 })
 
+PROPS['C07'].update({
+    'coq_targets': ['Properties/C07.vo', 'Impl/ImplBoard.vo'],
+    'obligation_files': ['Properties/C07.v', 'Impl/ImplBoard.v'],
+    'level': 'proof',
+    'level_text': 'Proof for an arbitrary key table (every seed): for every legal position and accepted pseudo-legal move of every type, the incremental update equals the hash of the successor computed from scratch; by induction the hash maintained along any line of legal moves from any legal start equals the scratch hash of the position reached, so two lines reaching the same placement, side, rights and e.p. target carry the same hash (clocks and history do not enter); positions differing in a component collide only if a xor of distinct table keys vanishes. Take-back restores the stored hash of the previous node (C08). Implementation: Board.Hash() compared with ZobristTable.Hash(position, turn) after every push/pop/fork for three seeds, and with the model on the dumped keys.',
+    'level_note': 'zt_ok (e.p. keys off ranks 3/6 are zero) is what NewZobristTable guarantees for every seed; math/rand and the 2^-64 collision probability are not modelled. Trusted: Coq kernel, harness.',
+})
+PROPS['C14'].update({
+    'coq_targets': ['Properties/C14.vo', 'Impl/ImplBoard.vo'],
+    'obligation_files': ['Properties/C14.v', 'Impl/ImplBoard.v'],
+    'level': 'proof',
+    'level_text': 'Proof (Leibniz equality): for every position satisfying the representation invariant, both colours and all clocks in [0, 2^63), decode (encode x) = x; decoding a canonical FEN and re-encoding reproduces the string; Atoi/Itoa inverse over int64. The model codec is compared with Go character by character; the FEN an engine reports after every Move/TakeBack is decoded and compared with the specification game (clock = half-moves since last pawn move or capture, full-move number incremented after Black moves) - that part is differential (theorem with C05 in progress).',
+    'level_note': 'strings.Split/TrimSpace, strconv.Atoi/Itoa, fmt %v and []rune conversion are modelled (Model/Fen.v) and exercised by the correspondence, not proved against the Go library. Trusted: Coq kernel, harness.',
+})
+PROPS['C19'].update({
+    'coq_targets': ['Properties/C19.vo', 'Impl/ImplBoard.vo'],
+    'obligation_files': ['Properties/C19.v', 'Impl/ImplBoard.v'],
+    'level': 'proof',
+    'level_text': 'Proof: the model decoder has an explicit Crash outcome for Go panics and never reaches it, for all strings; every accepted FEN yields a well-formed value (representation invariant, colour w/b, clocks in [0, 2^63)) whose re-encoding decodes to the same value; ParseMove accepts exactly file-rank-file-rank[-promotion] and returns squares < 64; ParseSquare total. The legacy uint8 cursor is refuted with the two strings that crash / yield a nil position. Engine.Move accepted-iff-legal and state-unchanged-on-rejection are checked against the specification on generated positions with all pseudo-legal, random and junk strings (theorem in progress).',
+    'level_note': 'unicode.IsDigit/IsLetter beyond ASCII are abstracted: every non-ASCII rune in the board field leads to an error in both Go and the model (argued in Lemmas/FenLemmas, exercised with Arabic-Indic / full-width / astral runes). UTF-8 decoding is Go s. Trusted: Coq kernel, harness (panics are caught by recover and reported as CRASH).',
+})
+
 # Every listed property is claimed; reasons would go here otherwise.
 NOT_APPLICABLE = [
     {'property_id': pid, 'reason': 'check not built yet in this session (work in progress; see DESIGN.md section 9)'}
